@@ -147,6 +147,24 @@ CHAR_AXIOMS = [
 ]
 USED_CHAR_AXIOMS = [False]
 
+# total length of a list of opaque strings: sumlen(ids, n) = len(ids[0]) + ... + len(ids[n-1])
+len_any_uf = z3.Function('len_any', IntS, IntS)
+sumlen_uf = z3.Function('sumlen', ArrII, IntS, IntS)
+_a = z3.Const('a!ax', ArrII)
+_n = z3.Int('n!ax')
+_i = z3.Int('i!ax')
+_x = z3.Int('x!ax')
+SUMLEN_AXIOMS = [
+    z3.ForAll([_a], sumlen_uf(_a, 0) == 0, patterns=[sumlen_uf(_a, 0)]),
+    z3.ForAll([_a, _n], z3.Implies(_n >= 0, sumlen_uf(_a, _n + 1) == sumlen_uf(_a, _n) + len_any_uf(z3.Select(_a, _n))),
+              patterns=[sumlen_uf(_a, _n + 1)]),
+    # the sum over [0, n) does not depend on elements at or beyond n
+    z3.ForAll([_a, _n, _i, _x], z3.Implies(_i >= _n, sumlen_uf(z3.Store(_a, _i, _x), _n) == sumlen_uf(_a, _n)),
+              patterns=[sumlen_uf(z3.Store(_a, _i, _x), _n)]),
+    z3.ForAll([_x], len_any_uf(_x) >= 0, patterns=[len_any_uf(_x)]),
+]
+USED_SUMLEN = [False]
+
 
 # ---------------------------------------------------------------------------
 # typed flattening
